@@ -8,6 +8,7 @@ mod c06_sql;
 mod c06_vals;
 pub mod c11;
 mod c11_data;
+pub mod c18;
 pub mod c19;
 mod c19_model;
 pub mod c20;
@@ -15,5 +16,5 @@ pub mod selftest;
 pub mod sqlcase;
 
 pub fn all() -> Vec<PropDef> {
-    vec![selftest::def(), c01::def(), c06::def(), c11::def(), c19::def(), c20::def()]
+    vec![selftest::def(), c01::def(), c06::def(), c11::def(), c18::def(), c19::def(), c20::def()]
 }
